@@ -3023,8 +3023,10 @@ def tendiag(
         shape = parse_shape(shape)
         constructed_shape = tuple(max(N, dim) for dim in shape)
     X = tenzeros(constructed_shape, order=order)
-    subs = np.tile(np.arange(0, N)[:, None], (len(constructed_shape),))
-    X[subs] = elements
+    if N > 0:
+        # no element: nothing to place (assignment by an empty subscript array fails)
+        subs = np.tile(np.arange(0, N)[:, None], (len(constructed_shape),))
+        X[subs] = elements
     return X
 
 
